@@ -417,6 +417,14 @@ class DynGraph(nx.Graph):
                                 self.time_to_edge[t[1] + 1] = {(u, v, "-"): None}
 
                     app[-1][1] = t[1]
+                elif t[1] <= max_end:
+                    # the span is already covered by the latest interval: the timeline is unchanged
+                    # and the events inserted above are withdrawn
+                    if self.edge_removal:
+                        if t[0] != app[-1][0]:
+                            del self.time_to_edge[t[0]][(u, v, "+")]
+                        if e is not None and e != max_end + 1:
+                            del self.time_to_edge[e][(u, v, "-")]
                 else:
                     app.append(t)
         else:
